@@ -13,7 +13,7 @@ partial def readAll (h : IO.FS.Stream) (acc : String) : IO String := do
   if l.isEmpty then return acc else readAll h (acc ++ l)
 
 def countEvents (evs : List String) : String :=
-  let names := ["capture", "invoke", "leave", "reenter", "enter", "exit", "exit-error", "handled", "reset", "shift", "dinvoke", "d12", "mc-cross", "orphan-invoke"]
+  let names := ["capture", "invoke", "leave", "reenter", "enter", "exit", "exit-error", "handled", "reset", "shift", "dinvoke", "d12", "mc-cross", "orphan-invoke", "raise-through-left-extent", "raw-invoke"]
   ",".intercalate (names.map fun n => s!"{n}={(evs.filter (· == n)).length}")
 
 def runProgram (impl : Bool) (st0 : St) (src : String) : String :=
